@@ -18,7 +18,8 @@
     value list is unchanged, hence `encodeData` from the JSON file is `encodeData` from the object.
   * `C09_bytes_repr_roundtrip`        — the value token of the two TEXT formats: for every octet string
     `ast.literal_eval(repr(b)) == b` (`evalBytesLiteral (reprBytes b) = some b`; either quote, backslash, TAB / LF / CR,
-    `\xhh`).  The shape hypotheses of the text-converter theorems (`ReprOK.bytes_tok`, Props/C09Text.lean) stay tested per value.
+    `\xhh`).  The shape hypotheses of the text-converter theorems (`ReprOK.bytes_tok`, `edges`) are DERIVED from `reprBytes` in
+    Props/C09TextBytes.lean (`C09_repr_bytes_tok`, `C09_repr_bytes_core`, `C09_nested_text_to_flat_bytes_partial`, `C09_flat_text_to_flat_bytes`).
   * `C09_json_text_latin1_unique`     — latin-1 is the ONLY serialiser with this property: any
     `ser : List UInt8 → List Char` that the encoder's `str.encode('latin-1')` inverts IS `decodeLatin1`.
   * `C09_utf8_when_valid_loses_roundtrip` — proved negation for the "UTF-8 when valid, else latin-1" serialiser
